@@ -135,6 +135,16 @@ def run(prog, rep, tier):
                 ip = [p for p in npl[1] if p[0] == 'idx'][0]
                 ie = expr_of(mv, census._mk_copy((ip[1], ())))
                 okpos = ie[0] == 'place' and place_fields(ie[1])[-1:] == ['current_offset']
+            if not okpos and pos.place is not None:
+                # `offsets.get(current_offset)` form: the position is (a copy of) the element that lookup returned
+                def is_get(k, ob, bb):
+                    if k != 'call' or ob.cmethod != 'get' or len(ob.args) < 2 or ob.args[0].place is None or ob.args[1].place is None:
+                        return False
+                    co = origins(mv, [ob.args[0].place[0]])
+                    ie_ = expr_of(mv, ob.args[1])
+                    return any(f[-1] == 'offsets' for f in co.fields) and ie_[0] == 'place' and place_fields(ie_[1])[-1:] == ['current_offset'] and \
+                        mv.dominates(stores[0][0], bb)
+                okpos = must_derive(mv, pos.place[0], is_get, extra_transparent=('copied', 'cloned', 'ok_or_else', 'ok_or', 'branch', 'unwrap', 'expect'))
             okdom = mv.dominates(stores[0][0], sblk.idx)
             so = origins(mv, [sblk.term.args[0].place[0]], through_calls=False)
             oksrc = any(f[-1] == 'src' for f in so.fields)
